@@ -14,6 +14,7 @@ CONSTANTS
   SeqAlphaB = {"A", "C", "-"}
   SeqLensB = {3, 4}
   HomoLens = {9, 10, 12}
+  RunLevel = 2
   QSeqs = 3
   PairAlpha = {"a", " ", ">", "|", "%"}
   PairLen = 2
